@@ -1,7 +1,7 @@
 SPECIFICATION TSpec
 CONSTANTS
-  RoundCeil = TRUE
-  ClampStart = FALSE
+  RoundCeil = FALSE
+  ClampStart = TRUE
   PNew = {}
   PReq = {}
   PConf = {}
